@@ -114,4 +114,11 @@ theorem fact_client_exchange :
     Facts.clientBodyReads = ["io.ReadAll(httpResp.Body)", "io.ReadAll(httpResp.Body)"] := by
   decide
 
+/-! ### T1: functions the model transcribes, statement by statement (white space collapsed) -/
+
+def expected_DB_GetConditional : List String := ["if !caller.Permissions.Allow(acl.ActionGet, name) { return nil, db.checkAndLog(caller, acl.ActionGet, name, 0) }", "db.mu.Lock()", "defer db.mu.Unlock()", "sv, err := db.kv.get(name)", "if err != nil { return nil, err } else if sv.Version == oldVersion { return nil, api.ErrValueNotChanged }", "if err := db.checkAndLog(caller, acl.ActionGet, name, 0); err != nil { return nil, err }", "return sv, nil"]
+
+/-- DB.GetConditional: an ungranted caller is refused (and recorded) at once; otherwise, under the mutex: read, report not-found or not-changed without a record, else record the disclosure and return the value -/
+theorem fact_DB_GetConditional_as_transcribed : Facts.body_DB_GetConditional = expected_DB_GetConditional := by rfl
+
 end Setec.C09
